@@ -179,6 +179,25 @@ func SelfTest() error {
 	if w != 0 || r.Bit(0) != 0 || FSqr(r).Cmp(FMul(SqrtM1, two)) != 0 {
 		return fmt.Errorf("sqrt(2/1)")
 	}
+	// points from a prescribed coordinate lie on the curve
+	nx, ny := 0, 0
+	for v := int64(2); v < 40; v++ {
+		if m, ok := FromX(big.NewInt(v), v%2 == 0); ok {
+			nx++
+			if !OnCurve(m) || m.X.Cmp(big.NewInt(v)) != 0 {
+				return fmt.Errorf("FromX(%d) off curve", v)
+			}
+		}
+		if m, ok := FromY(big.NewInt(v), v%2 == 0); ok {
+			ny++
+			if !OnCurve(m) || m.Y.Cmp(big.NewInt(v)) != 0 {
+				return fmt.Errorf("FromY(%d) off curve", v)
+			}
+		}
+	}
+	if nx < 5 || ny < 5 {
+		return fmt.Errorf("FromX/FromY found too few points (%d, %d)", nx, ny)
+	}
 	// recoding mirrors reconstruct the scalar
 	for _, k := range []*big.Int{k1, Sc(k2), new(big.Int).Sub(L, one), big.NewInt(8), big.NewInt(0)} {
 		k = Sc(k)
